@@ -154,6 +154,9 @@ C15Rules(r, f) ==
           <<"C15.valid-writes-accepted", (ValidParams(r.new) /\ r.new.ret = "ok") => ~r.wunexp>>,
           <<"C15.overfill-reported", (r.new.ret = "ok" /\ decl > 0 /\ whole > decl) => anyerr>>,
           <<"C15.underfill-reported", (r.new.ret = "ok" /\ decl > 0 /\ whole < decl /\ ~r.wpanic) => r.fin.ret = "err">>,
+          \* the same in the front end's own unit (bytes, samples): whatever total a constructor took, finishing with fewer units than it is an error
+          <<"C15.underfill-reported-in-units", (r.new.ret = "ok" /\ r.new.declared # <<>> /\ r.new.declared[1] < 100 /\ HL(r.new.declared) > 0
+                                                /\ r.units < HL(r.new.declared) /\ ~r.wpanic) => r.fin.ret = "err">>,
           <<"C15.exact-ok", (r.new.ret = "ok" /\ decl > 0 /\ whole = decl /\ ~r.werr /\ ~r.wpanic) =>
                                (r.fin.ret = "ok" /\ TotalIn(f) = decl)>>,
           <<"C15.count-recorded", (r.new.ret = "ok" /\ decl = -1 /\ whole >= 1 /\ r.fin.ret = "ok") =>
